@@ -1909,6 +1909,37 @@ fn main() {
         Some("rerun") => {
             // re-run = run the searches again and report whether the recorded disagreement is still present
             let fi: Value = serde_json::from_str(&args[2]).unwrap();
+            // a differential finding records the exact request and configuration: send that request again, to the crate and to the model
+            let mut replayed: Vec<Value> = Vec::new();
+            if let Some(ds) = fi.get("disagreements").and_then(|d| d.as_array()) {
+                for d in ds {
+                    let g = &d["disagreement"];
+                    if g.get("config").is_some() && g.get("headers").is_some() {
+                        let leak = |s: &str| -> &'static str { Box::leak(s.to_string().into_boxed_str()) };
+                        let strs = |v: &Value| -> Vec<&'static str> { v.as_array().map(|a| a.iter().filter_map(|x| x.as_str()).map(leak).collect()).unwrap_or_default() };
+                        let c = &g["config"];
+                        let cfg = Cfg { region: leak(c["region"].as_str().unwrap_or("us-east-1")), service: leak(c["service"].as_str().unwrap_or("service")),
+                            now: DateTime::parse_from_rfc3339(c["now"].as_str().unwrap_or("2015-08-30T12:36:00+00:00")).map(|t| t.with_timezone(&Utc)).unwrap_or_else(|_| ts_now().1),
+                            s3: c["s3"].as_bool().unwrap_or(false), fold: c["fold"].as_bool().unwrap_or(false), always: strs(&c["always"]), ifreq: strs(&c["if_in_request"]), prefixes: strs(&c["prefixes"]) };
+                        let r = Req { method: leak(g["method"].as_str().unwrap_or("GET")), path: g["path"].as_str().unwrap_or("/").to_string(), query: g["query"].as_str().unwrap_or("").to_string(),
+                            headers: g["headers"].as_array().map(|a| a.iter().map(|h| (h[0].as_str().unwrap_or("").to_string(), h[1].as_str().unwrap_or("").to_string())).collect()).unwrap_or_default(),
+                            body: hex::decode(g["body_hex"].as_str().unwrap_or("")).unwrap_or_default() };
+                        let mut reqs = VecSignedHeaderRequirements::default();
+                        for a in &cfg.always { reqs.add_always_present(a); }
+                        for a in &cfg.ifreq { reqs.add_if_in_request(a); }
+                        for a in &cfg.prefixes { reqs.add_prefix(a); }
+                        let real = validate_with(&r, cfg.now, cfg.region, cfg.service, SignatureOptions { s3: cfg.s3, url_encode_form: cfg.fold }, &reqs);
+                        let model = model_verdict(&r, &cfg);
+                        let agree = match (&real, &model) { (Ok((uri, bl)), Ok((mu, ml))) => bl == ml && mu.as_ref().map(|m| uri == m).unwrap_or(true), (Err(e), Err(k)) => e.starts_with(&format!("{}:", k.0)), _ => false };
+                        replayed.push(json!({"request": {"method": r.method, "path": r.path, "query": r.query, "headers": r.headers}, "model_now": format!("{:?}", model), "crate_now": format!("{:?}", real), "still_disagree": !agree}));
+                    }
+                }
+            }
+            if !replayed.is_empty() {
+                let still = replayed.iter().any(|v| v["still_disagree"].as_bool().unwrap_or(false));
+                println!("{}", json!({"ok": true, "recorded": fi, "still_failing": still, "replayed_requests": replayed}));
+                return;
+            }
             let rs = searches_for("ALL", strict_d6);
             let found: Vec<Value> = rs.iter().filter_map(|r| r.1 .1.clone()).collect();
             json!({"ok": true, "recorded": fi, "still_failing": !found.is_empty(), "now": found})
